@@ -159,6 +159,8 @@ func C20(c *Ctx) {
 	bootstrapComments(c, "C20-i")
 	r.Rule("C20-j", "each stage's input grammar lies in the subset the front-end of the stage before understands (pigeon.peg does not use its own extensions of bootstrap.peg): (1) every node type in the grammar literal of pigeon.go / bootstrap_pigeon.go is constructed (ast.New…) by the actions of bootstrap_pigeon.go / by bootstrap/parser.go; (2) every code block of the two grammars ends at the same byte for a reader that counts braces (bootstrap.peg's Code rule, the hand-written scanCode) and for pigeon.peg's Code rule, which skips strings, rune literals and comments; (3) every rule of pigeon.peg is defined with an operator bootstrap.peg's RuleDefOp lists; (4) rule names, references and labels of pigeon.peg are ASCII identifiers as bootstrap.peg's IdentifierStart / IdentifierPart demand")
 	bootstrapSubset(c, "C20-j")
+	r.Rule("C20-k", "the ignore-case suffix is lexed alike by the three front-ends: the `ignore:` item of LitMatcher and CharClassMatcher in both grammars and the `if s.cur == 'i'` of the hand-written scanner's literal and class routines are all unconditional (an optional bare `i`) or all conditional - otherwise the front-ends split `\"a\"item` differently")
+	ignoreCaseSuffixAgreement(c, "C20-k")
 	r.Rule("C20-f", "sibling agreement of the two front-end grammars: every rule defined both in grammar/bootstrap.peg and in grammar/pigeon.peg (compared through their generated literals, positions and actions aside) has the same expression, except the listed rules where pigeon.peg extends the bootstrap subset")
 	r.Rule("C20-d", "for artifacts generated without -optimize-grammar: every position{line,col,offset} in the grammar literal satisfies line = 1 + newlines before offset, col = 1 + runes since the last newline; rule names, rule references, character-class texts and `.` occur at their offsets in the .peg")
 
